@@ -104,6 +104,11 @@ class Scenario:
             acc.close()
         self.base = base
         self.info = info
+        self.meta_target = None
+        try:
+            self.meta_old = self.accessor(base).fetch_file("info")      # what the directory holds before the operation
+        except Exception:
+            self.meta_old = None
         return base
 
     def run_op(self):
@@ -136,6 +141,13 @@ class Scenario:
             if self.kind == "sharded":
                 acc.close()
             return "store", None, None
+        if op == "store_meta":
+            # a metadata file as the TARGET of the store (read back as bytes and parsed)
+            new = json.dumps(self.info, sort_keys=True).encode() + b"  "
+            self.meta_target = ("info", new, self.meta_old)
+            self.targets = []
+            acc.store_file("info", new, mime_type="application/json", overwrite=True)
+            return "store", None, None
         if op == "store_info":
             new = json.dumps(self.info, sort_keys=True).encode() + b" "
             self.targets = []
@@ -161,15 +173,27 @@ class Scenario:
         out_t, out_o = [], []
         try:
             acc = self.accessor(self.base)
-            if self.opname == "store_info":
+            if self.opname in ("store_info", "store_meta"):
                 # the info file is the TARGET of this operation: read the chunks
                 # with the known info so that "others" does not depend on it
+                if self.kind == "sharded":
+                    acc.info = self.info      # the sharded accessor reads its parameters from the info file too
                 r = pio.PrecomputedIO(self.info, acc)
             else:
                 r = pio.get_IO_for_existing_dataset(acc)
         except Exception:
             r = None
         tkeys = set()
+        if self.opname == "store_meta" and getattr(self, "meta_target", None):
+            name, new, old = self.meta_target
+            ent = {"new": list(new), "hasold": old is not None, "old": list(old) if old is not None else []}
+            try:
+                raw = self.accessor(self.base).fetch_file(name)
+                json.loads(raw)                 # a reader parses it: a torn file is detectably invalid
+                ent.update(st="ok", data=list(raw), cls="", ast="ok", adata=list(raw))
+            except Exception as e:
+                ent.update(st="exc", data=[], cls=type(e).__name__, ast="exc", adata=[])
+            out_t.append(ent)
         for (k, c), a, old in getattr(self, "targets", []):
             tkeys.add((k, c))
             ent = {"new": blist(a), "hasold": old is not None, "old": blist(old) if old is not None else []}
@@ -220,7 +244,7 @@ def run_once(workdir, scen, plan):
                 outcome.update(st="raised", cls=type(e).__name__, osErr=isinstance(e, OSError),
                                dataAccess=isinstance(e, DataAccessError))
             retry = ""
-            if (outcome["st"] == "raised" and scen.kind == "sharded" and scen.opname.startswith("store")
+            if (outcome["st"] == "raised" and scen.kind == "sharded" and scen.opname in ("store_new", "store_overwrite")
                     and getattr(scen, "last_acc", None) is not None):
                 # the accessor registered close() with atexit: the interpreter will call it
                 # again at exit (and callers may retry). A close() that RETURNS claims success.
@@ -235,7 +259,7 @@ def run_once(workdir, scen, plan):
                 except Exception as e2:
                     retry = "raised:" + type(e2).__name__
             if outcome["st"] != "returned":
-                optype = {"store_new": "store", "store_overwrite": "store", "store_info": "exists",
+                optype = {"store_new": "store", "store_overwrite": "store", "store_info": "exists", "store_meta": "store",
                           "fetch": "fetch", "fetch_info": "fetch", "exists": "exists"}[scen.opname]
             targets, others = scen.readback()
         case = {"mode": plan["mode"] if plan else "none", "fired": bool(ip.fired) if plan else False,
